@@ -229,6 +229,16 @@ func Roles() Spec {
 	}
 	plain := PreparedSeed("prepared+resolvers", seedActs()...)
 	plain.Name = "prepared+resolvers"
+	// the governance authority is an account like any other when it signs an ordinary message: it is funded, so
+	// that nothing but the role it lacks can make such a message fail (e.g. CreateClass while the allowlist is on)
+	fundG := func(build func(c *chain.Chain) sdk.Context) func(c *chain.Chain) sdk.Context {
+		return func(c *chain.Chain) sdk.Context {
+			ctx := build(c)
+			c.Fund(ctx, G, sdk.NewCoins(coin("uregen", 1_000_000)))
+			return ctx
+		}
+	}
+	plain.Build = fundG(plain.Build)
 	rot := append(seedActs(),
 		Msg("rot:class admin A->B", &basetypes.MsgUpdateClassAdmin{Admin: A.String(), ClassId: "C01", NewAdmin: B.String()}),
 		Msg("rot:issuers +C -A", &basetypes.MsgUpdateClassIssuers{Admin: B.String(), ClassId: "C01", AddIssuers: []string{C.String()}, RemoveIssuers: []string{A.String()}}),
@@ -244,5 +254,6 @@ func Roles() Spec {
 		ctx := PreparedSeed("prepared").Build(c)
 		return mustRun(c, ctx, rot...)
 	}}
+	rotated.Build = fundG(rotated.Build)
 	return Spec{Name: "roles", Seeds: []explore.Seed{plain, rotated}, Events: evs, DepthQuick: 3, DepthThor: 4, ExpectFail: exp, MinStates: 50}
 }
